@@ -237,6 +237,10 @@ pub struct StepE {
     pub s: Fb,
     /// mismatch operand geometry: (other length delta, shape selector)
     pub alt: usize,
+    /// 0 = operate on the whole pooled vectors; k > 0 = on their first k elements only (a shorter
+    /// call after longer ones on the same thread: stale scratch space must not leak in)
+    #[serde(default)]
+    pub sub: usize,
 }
 
 #[derive(Clone, Debug, Serialize, Deserialize)]
@@ -858,7 +862,7 @@ impl Prop for C04 {
                 n,
                 rows,
                 init,
-                steps: vec![StepE { form, a: 0, b: 1, s: Fb(gen_val(&mut r, kind == 1)), alt: r.below(64) as usize }],
+                steps: vec![StepE { form, a: 0, b: 1, s: Fb(gen_val(&mut r, kind == 1)), alt: r.below(64) as usize, sub: 0 }],
                 fills: Fill::ALL.to_vec(),
                 scribble: false,
                 junk: Hx(r.next()),
@@ -866,14 +870,16 @@ impl Prop for C04 {
             };
         }
         // random program: results fed back into the pool so that buffers are recycled
-        let n = match r.below(10) {
-            0..=4 => r.usize(0, 40),
-            5..=7 => r.usize(41, 300),
-            8 => r.usize(301, 2000),
-            _ => r.usize(2001, 10_000),
+        let n = match r.below(100) {
+            0..=49 => r.usize(0, 40),
+            50..=79 => r.usize(41, 300),
+            80..=89 => r.usize(301, 2000),
+            90..=97 => r.usize(2001, 10_000),
+            // beyond the stated 1e4: size thresholds of bulk / parallel code paths
+            _ => r.usize(10_001, 140_000),
         };
         let special = r.chance(0.4);
-        let nsteps = if n > 2000 { 1 + r.below(3) as usize } else { 1 + r.below(12) as usize };
+        let nsteps = if n > 10_000 { 1 + r.below(2) as usize } else if n > 2000 { 1 + r.below(3) as usize } else { 1 + r.below(12) as usize };
         let focus = r.below(4); // 0: anything, 1: arithmetic, 2: maps, 3: reductions
         let kind = if focus == 3 { *r.pick(&[0u8, 2, 2, 3]) } else if special { 1 } else { 0 };
         let init: Vec<Vec<Fb>> = (0..3).map(|_| fbs(&gen_vec(&mut r, n, kind))).collect();
@@ -892,7 +898,8 @@ impl Prop for C04 {
                     break f;
                 }
             };
-            steps.push(StepE { form, a: r.below(3) as usize, b: r.below(3) as usize, s: Fb(gen_val(&mut r, special)), alt: r.below(64) as usize });
+            let sub = if n >= 2 && r.chance(0.3) { 1 + r.below(n as u64 - 1) as usize } else { 0 };
+            steps.push(StepE { form, a: r.below(3) as usize, b: r.below(3) as usize, s: Fb(gen_val(&mut r, special)), alt: r.below(64) as usize, sub });
         }
         let mut fills: Vec<Fill> = vec![*r.pick(&Fill::ALL)];
         loop {
@@ -932,14 +939,24 @@ impl Prop for C04 {
             dh.s(&form_name(f));
             dh.u(res8 as u64);
             dh.u((n >= 8) as u64 + (n > 40) as u64);
-            let a = pool[stp.a % 3].clone();
-            let b = pool[stp.b % 3].clone();
+            let mut a = pool[stp.a % 3].clone();
+            let mut b = pool[stp.b % 3].clone();
+            let full_n = n;
+            let sub_active = stp.sub > 0 && stp.sub < full_n;
+            if sub_active {
+                a.truncate(stp.sub);
+                b.truncate(stp.sub);
+                st.inc("sub_length_ops");
+            }
+            let n = a.len();
+            let rows_here = if sub_active { 1 } else { case.rows };
+            let res8 = n % 8;
             let s = stp.s.0;
             let mk = |class: &str, detail: String| Viol::new("elementwise_exact", class, format!("step {} {} (n = {}, n mod 8 = {}): {}", si, form_name(f), n, res8, detail)).k("form", cls);
             let mut outs: Vec<(Fill, Result<Outc, String>)> = vec![];
             for (pi, fill) in case.fills.iter().enumerate() {
                 alloc_seam::set_policy(*fill, case.scribble, case.junk.0 ^ ((si as u64) << 8) ^ pi as u64);
-                let o = run_form(f, &a, &b, s, case.rows, stp.alt);
+                let o = run_form(f, &a, &b, s, rows_here, stp.alt);
                 alloc_seam::reset_policy();
                 st.inc(&format!("fill.{}", fill.name()));
                 outs.push((*fill, o));
@@ -1031,7 +1048,7 @@ impl Prop for C04 {
                             verdict = Some(mk("operand_changed", "reduction modified its input".into()));
                             break 'steps;
                         }
-                        if let Err(d) = check_reduction(*red, &a, &b, case.rows.max(1), got) {
+                        if let Err(d) = check_reduction(*red, &a, &b, rows_here.max(1), got) {
                             verdict = Some(mk("reduction_off_definition", d));
                             break 'steps;
                         }
@@ -1046,7 +1063,7 @@ impl Prop for C04 {
                         }
                         Ok(o) => {
                             st.inc("outcome.ok");
-                            let exp_shape = if is_matrix_form(f) { if n == 0 { (0, 0) } else { (case.rows, n / case.rows) } } else { (1, n) };
+                            let exp_shape = if is_matrix_form(f) { if n == 0 { (0, 0) } else { (rows_here, n / rows_here) } } else { (1, n) };
                             if o.res.len() != n || o.shape != exp_shape {
                                 verdict = Some(mk("wrong_shape", format!("result has {} elements, shape {:?}; expected {} elements, shape {:?}", o.res.len(), o.shape, n, exp_shape)));
                                 break 'steps;
@@ -1068,7 +1085,7 @@ impl Prop for C04 {
                                 h.u(*x);
                             }
                             // feed the result back (recycles buffers, evolves values)
-                            if !case.grid {
+                            if !case.grid && !sub_active {
                                 pool[slot % 3] = reference;
                                 slot += 1;
                             }
@@ -1189,7 +1206,7 @@ impl Prop for C04 {
         for f in Fill::ALL {
             v.push(format!("fill.{}", f.name()));
         }
-        for k in ["len.ge8", "len.lt8", "fault.fill_alloc", "fault.scribble_free", "fault.reject", "outcome.ok", "outcome.rejected", "runs.grid", "runs.program"] {
+        for k in ["len.ge8", "len.lt8", "fault.fill_alloc", "fault.scribble_free", "fault.reject", "outcome.ok", "outcome.rejected", "runs.grid", "runs.program", "sub_length_ops"] {
             v.push(k.to_string());
         }
         v
